@@ -78,6 +78,8 @@ pub enum IAmt {
     Lit(i64),
     Balance,
     BalancePlus1,
+    /// outside the range of narrower integer types: 2^64 + 5, -2^64 + 7, i128::MIN + 9, i128::MAX, 2^32 + 3, 2^96 + 1
+    Wide(u8),
 }
 
 #[derive(Serialize, Deserialize, Clone, Debug, PartialEq, Eq, Hash)]
